@@ -63,3 +63,55 @@ Example C12_example :
   [[0; 1; 9; 0; 7; 1]; [1; 2; 0; 0; 6; 0; 0; 3; 2]; [1; 4; 1; 1; 2; 3; 2; 18; 1]; [2; 15; 2; 0; 1; 0];
    [1; 17; 0; 3; 0; 0]]%Z.
 Proof. vm_compute. reflexivity. Qed.
+
+(* ---- objects with several NamespaceSets in one namespace (Operation: input / output / in-output
+   variables): model/UpdateFromNS.v, [updm true] = update_from after the fix (phase 1: removal from
+   every set, phase 2: the sets one after the other), [updm false] = the order before the fix.
+   [wfm arity n]: at every depth the idShorts are unique across ALL sets of an object (AASd-022),
+   qualifier types / extension names are unique, and the number of sets is a matter of the class. *)
+From Basyx Require Import model.UpdateFromNS proofs.UpdateFromNSProofs.
+
+(* No exception (in particular no AASd-022 half way) and the result field by field; the children
+   of set i by idShort: exactly the other's idShorts of set i; an object keeps its identity (it is
+   updated in place, recursively) iff a same-class object with its idShort sits in the SAME set i
+   of the other tree; otherwise (new, class changed, or MOVED from another set) it is the other
+   tree's object. *)
+Theorem C12_ns_children : forall arity live new us i k, wfm arity live -> wfm arity new -> m_cls live = m_cls new ->
+  exists r, updm true live new us = Ok r /\
+    m_oid r = m_oid live /\ m_cls r = m_cls new /\ m_key r = m_key new /\ m_pay r = m_pay new /\
+    m_src r = (if us then m_src new else m_src live) /\
+    find_in i k r =
+    match find_in i k new with
+    | None => None
+    | Some n' => match msurvivor (set_of i live) n' with
+                 | Some l => match updm true l n' true with Ok u => Some u | Raised _ => None end
+                 | None => Some n'
+                 end
+    end.
+Proof. exact ns_children. Qed.
+Print Assumptions C12_ns_children.
+
+(* The updated object is well-formed again: idShorts unique across all its sets (where the old
+   order failed), and every set has exactly the other's idShorts. *)
+Theorem C12_ns_unique : forall arity live new us, wfm arity live -> wfm arity new -> m_cls live = m_cls new ->
+  exists r, updm true live new us = Ok r /\ wfm1 arity r /\
+    (forall i k, find_in i k r <> None <-> find_in i k new <> None).
+Proof. exact ns_unique. Qed.
+Print Assumptions C12_ns_unique.
+
+(* The whole result as a term: every set is (survivors updated in place, in live order) ++ (the
+   other's objects without same-class counterpart in this set, in the other's order). *)
+Theorem C12_ns_result : forall arity new live us, wfm arity live -> wfm arity new -> m_cls live = m_cls new ->
+  updm true live new us = Ok (unode live new us).
+Proof. exact updm_ok. Qed.
+Print Assumptions C12_ns_result.
+
+(* An Operation whose variable 'a' moves from output_variable to input_variable (an earlier set):
+   the order before the fix adds the new 'a' to input_variable while the old one still sits in
+   output_variable and raises AASd-022; the two-phase order replaces it by the other's object. *)
+Example C12_ns_old_order_refuted :
+  wfm ex_arity ex_op_live /\ wfm ex_arity ex_op_new /\
+  updm false ex_op_live ex_op_new false = Raised AASd_022 /\
+  updm true ex_op_live ex_op_new false = Ok (MNode 1 4 0 1 0 [] [[MNode 12 0 0 6 0 [] []]; []; []]).
+Proof. exact ns_old_order_refuted. Qed.
+Print Assumptions C12_ns_old_order_refuted.
